@@ -195,11 +195,17 @@ func init() {
 		})
 		w := newNDWriter(*out)
 		defer w.Close()
-		var n, mism int64
+		var n, mism, rejected int64
 		parallelFor(len(cases), func(ci int) {
 			c := cases[ci]
 			s, rr, err := buildSchema(c.Schema, Env{}, c.Opt, true)
-			if err != nil || s.Check() != nil {
+			if err == nil {
+				err = s.Check()
+			}
+			if err != nil {
+				if atomic.AddInt64(&rejected, 1) <= 3 {
+					fmt.Fprintf(os.Stderr, "schema rejected: %q: %v\n", rr.Text, err)
+				}
 				return
 			}
 			for di, raw := range c.Viol {
@@ -227,7 +233,7 @@ func init() {
 				}
 			}
 		})
-		b, _ := json.Marshal(map[string]int64{"located_violations": n, "mismatches": mism})
+		b, _ := json.Marshal(map[string]int64{"located_violations": n, "mismatches": mism, "schemas_rejected": rejected})
 		fmt.Fprintln(os.Stderr, "@@SUMMARY "+string(b))
 		return 0
 	})
